@@ -351,6 +351,9 @@ func (t *tracer) call(pkg string, e *ast.CallExpr, pre string) {
 				cands = append(cands, pkg)
 			}
 		}
+		if f.Sel.Name == "Close" || f.Sel.Name == "Error" || f.Sel.Name == "String" {
+			cands = nil // methods every other type has too: not ours by name alone
+		}
 		for _, p := range cands {
 			var hits []string
 			for n := range pkgs[p] {
@@ -366,7 +369,7 @@ func (t *tracer) call(pkg string, e *ast.CallExpr, pre string) {
 	}
 }
 
-var keepAlways = map[string]bool{"message.CalculateNewFlags": true, "parser.ParseMIMEMessage": true, "parser.ParseMessage": true, "parser.ReadDataCommand": true,
+var keepAlways = map[string]bool{"db.DBManager.initUserDB": true, "message.CalculateNewFlags": true, "parser.ParseMIMEMessage": true, "parser.ParseMessage": true, "parser.ReadDataCommand": true,
 	"parser.ValidateMessage": true, "db.DBManager.GetUserDB": true, "db.DBManager.GetRoleMailboxDB": true, "db.DBManager.GetSharedDB": true}
 var noInline = map[string]bool{"db.DBManager.GetUserDB": true, "db.DBManager.GetRoleMailboxDB": true, "db.DBManager.GetSharedDB": true,
 	"db.DBManager.initUserDB": true, "db.DBManager.initSharedDB": true}
@@ -432,6 +435,9 @@ var traceRoots = []traceRoot{
 	{"mailbox.HandleSubscribe", "mailbox", "HandleSubscribe"},
 	{"mailbox.HandleUnsubscribe", "mailbox", "HandleUnsubscribe"},
 	{"message.ApplyFlagChange", "message", "ApplyFlagChange"},
+	{"db.DBManager.GetUserDB", "db", "DBManager.GetUserDB"},
+	{"db.DBManager.GetRoleMailboxDB", "db", "DBManager.GetRoleMailboxDB"},
+	{"db.DBManager.initUserDB", "db", "DBManager.initUserDB"},
 	{"auth.authenticateUser", "auth", "authenticateUser"},
 	{"sasl.authenticate", "sasl", "Server.authenticate"},
 	{"db.GetUserByUsername", "db", "GetUserByUsername"},
